@@ -1,7 +1,59 @@
-(* C05 tie (B1), compiled on every run against Run.GenC05 = the colour conversions traced from the CURRENT source. *)
-From Coq Require Import Reals QArith Qreals Lra List Bool.
+(* C05 tie (B1), compiled on every run against Run.GenC05 = the colour conversions traced from the CURRENT source.
+
+   For every traced colour conversion, on its whole documented input range (RGB / YCrCb / linear RGB / XYZ images in
+   [0,1], Lab: all reals; the HSV pair is checked numerically only), every SINGULARITY side condition (argument of a fractional power,
+   logarithm or square root positive, denominators non-zero) of every instruction holds, whatever branch torch.where
+   selects.  Together with C05_dom_of_split and C05_ssa_correct: the only inputs of these functions outside the
+   autograd-safe domain are the branch thresholds, ties of max / min and hue sector borders (documented non-smooth
+   points).  On the code as found this fails for srgb_to_lab and lab_to_srgb (power of an unclamped value: NaN gradient
+   at black and for out-of-gamut colours). *)
+From Coq Require Import Reals QArith Qreals Lra Lia List Bool Arith.
 From OdakV Require Import Base.RealAux C05.Model C05.Lemmas.
 Require Import Run.GenC05.
 Import ListNotations.
 Open Scope R_scope.
-Goal True. exact I. Qed.
+
+Fixpoint hardV (p : list expr) (k : nat) (r : envT) : Prop :=
+  match p with
+  | [] => True
+  | e :: q => List.Forall (holds r) (filter hard (conds e)) /\ hardV q (S k) (upd r k (eval e r))
+  end.
+
+Definition box (n : nat) (lo hi : R) (r : envT) : Prop := forall i, (i < n)%nat -> lo <= r i <= hi.
+
+Ltac cases := repeat match goal with |- context [Rlt_dec ?a ?b] => destruct (Rlt_dec a b) end.
+Ltac arith := first [ lra | apply Rgt_not_eq; lra | apply Rlt_not_eq; lra ].
+Ltac one := cbv [holds strict nonint]; cbn [eval upd Nat.eqb lconst andb]; unfold Q2R; cbn [Qnum Qden]; cases; arith.
+Ltac conds_here := cbv [conds filter hard app]; repeat (first [ apply Forall_nil | apply Forall_cons ]); try one.
+(* instruction by instruction; the value of a finished instruction is generalised to an arbitrary real: the side
+   conditions below hold whatever the earlier program variables are (powers are taken of clamped values) *)
+Lemma hardV_cons e q k r : List.Forall (holds r) (filter hard (conds e)) -> (forall v, hardV q (S k) (upd r k v)) -> hardV (e :: q) k r.
+Proof. intros H1 H2. split; [exact H1 | apply H2]. Qed.
+Ltac steps :=
+  match goal with
+  | |- hardV [] _ _ => exact I
+  | |- hardV (_ :: _) _ _ => apply hardV_cons; [ conds_here | let v := fresh "v" in intro v; steps ]
+  end.
+Ltac start6 r Hb :=
+  pose proof (Hb 0%nat ltac:(lia)); pose proof (Hb 1%nat ltac:(lia)); pose proof (Hb 2%nat ltac:(lia));
+  pose proof (Hb 3%nat ltac:(lia)); pose proof (Hb 4%nat ltac:(lia)); pose proof (Hb 5%nat ltac:(lia)); clear Hb.
+
+Lemma tie_rgb_2_ycrcb : forall r, hardV p_rgb_2_ycrcb 6 r.
+Proof. intros r. unfold p_rgb_2_ycrcb. steps. Qed.
+Lemma tie_ycrcb_2_rgb : forall r, hardV p_ycrcb_2_rgb 6 r.
+Proof. intros r. unfold p_ycrcb_2_rgb. steps. Qed.
+Lemma tie_linear_rgb_to_xyz : forall r, hardV p_linear_rgb_to_xyz 6 r.
+Proof. intros r. unfold p_linear_rgb_to_xyz. steps. Qed.
+Lemma tie_xyz_to_linear_rgb : forall r, hardV p_xyz_to_linear_rgb 6 r.
+Proof. intros r. unfold p_xyz_to_linear_rgb. steps. Qed.
+Lemma tie_rgb_to_linear_rgb : forall r, box 6 0 1 r -> hardV p_rgb_to_linear_rgb 6 r.
+Proof. intros r Hb. start6 r Hb. unfold p_rgb_to_linear_rgb. steps. Qed.
+Lemma tie_linear_rgb_to_rgb : forall r, hardV p_linear_rgb_to_rgb 6 r.
+Proof. intros r. unfold p_linear_rgb_to_rgb. steps. Qed.
+Lemma tie_srgb_to_lab : forall r, box 6 0 1 r -> hardV p_srgb_to_lab 6 r.
+Proof. intros r Hb. start6 r Hb. unfold p_srgb_to_lab. steps. Qed.
+Lemma tie_lab_to_srgb : forall r, hardV p_lab_to_srgb 6 r.
+Proof. intros r. unfold p_lab_to_srgb. steps. Qed.
+
+Print Assumptions tie_srgb_to_lab.
+Print Assumptions tie_lab_to_srgb.
